@@ -341,20 +341,20 @@ var baseTable = FunctionTable{
 	},
 	"log": Function{
 		impl.Log,
-		0,
-		0,
+		1,
+		1,
 		false,
 	},
 	"power": Function{
 		impl.Power,
-		0,
-		0,
+		1,
+		1,
 		false,
 	},
 	"round": Function{
 		impl.Round,
 		0,
-		0,
+		1,
 		false,
 	},
 	"sqrt": Function{
